@@ -69,5 +69,6 @@ DesignHolds(c) ==
     /\ \A o \in Pipeline(c) : Failed(c, o, "keyper") = {}
     /\ KeyperSetKnown(c) => \A o \in ValidateSignatures(c) : Failed(c, o, "fn") = {}
     /\ c.f = "gnosis" => \A o \in AccessValidateMessage(c) : Failed(c, o, "access") = {}
+    /\ \A ord \in {"code", "rev"} : \A o \in CombinedValidator(c, ord) : Failed(c, o, "assembly") = {}
 
 =============================================================================
